@@ -18,6 +18,7 @@ var (
 // faultReader delivers doc in chunks, optionally fails after FailAt bytes and optionally cancels a context when the
 // read position crosses an offset.
 type faultReader struct {
+	mu       sync.Mutex
 	doc      []byte
 	pos      int
 	failAt   int
@@ -33,6 +34,8 @@ func (r *faultReader) Read(p []byte) (int, error) {
 	for i := 0; i < r.yield; i++ {
 		runtime.Gosched()
 	}
+	r.mu.Lock()
+	defer r.mu.Unlock()
 	if len(p) == 0 {
 		return 0, nil
 	}
